@@ -142,3 +142,61 @@ pub fn engine_surface(cases: Vec<Value>, out: &mut NdjsonOut) {
         out.write(&json!({"id": case["id"], "obs": o1, "deterministic": o1 == o2, "update_panic": p1, "render_panics": render_panics}));
     }
 }
+
+
+// surface_frames: real frames of every type (as the system wrote them, plus payload mutants that keep them
+// well-formed) folded one at a time into a fresh TuiState and rendered in every mode: total = no panic.
+pub fn engine_surface_frames(cases: Vec<Value>, out: &mut NdjsonOut) {
+    std::panic::set_hook(Box::new(|_| {}));
+    for case in cases {
+        let frames = case["frames"].as_array().cloned().unwrap_or_default();
+        let mut parsed = 0u64;
+        let mut problems = Vec::new();
+        for (i, f) in frames.iter().enumerate() {
+            let Ok(ev) = serde_json::from_value::<Event>(f.clone()) else { continue };
+            parsed += 1;
+            let mut state = TuiState::new(64, 4096);
+            // a little context first, so that the frame is not the only thing on screen
+            let ctx = Event { id: "ctx".into(), session_id: ev.session_id.clone(), timestamp_ms: 1, seq: 0, kind: EventKind::SessionStarted { input: "q".into() } };
+            let _ = std::panic::catch_unwind(std::panic::AssertUnwindSafe(|| state.update(ctx)));
+            let r = std::panic::catch_unwind(std::panic::AssertUnwindSafe(|| state.update(ev.clone())));
+            if r.is_err() {
+                problems.push(json!({"frame": i, "what": "update panicked"}));
+                continue;
+            }
+            let mut bad = Vec::new();
+            for raw in [false, true] {
+                if raw {
+                    state.toggle_output_view();
+                }
+                for overlay in 0..3 {
+                    match overlay {
+                        1 => state.toggle_activity_overlay(),
+                        2 => state.toggle_tasks_overlay(),
+                        _ => {}
+                    }
+                    for mode in [RenderMode::Json, RenderMode::Decoded] {
+                        for (w, h) in [(80u16, 30u16), (31, 12), (140, 50)] {
+                            let st: &TuiState = &state;
+                            let r = std::panic::catch_unwind(std::panic::AssertUnwindSafe(|| {
+                                let mut term = Terminal::new(TestBackend::new(w, h)).unwrap();
+                                let _ = term.draw(|fr| render(fr, st, mode, ""));
+                            }));
+                            if r.is_err() && bad.len() < 3 {
+                                bad.push(json!({"w": w, "h": h, "mode": format!("{mode:?}"), "raw": raw, "overlay": overlay}));
+                            }
+                        }
+                    }
+                    state.close_overlay();
+                }
+                if raw {
+                    state.toggle_output_view();
+                }
+            }
+            if !bad.is_empty() {
+                problems.push(json!({"frame": i, "what": "render panicked", "at": bad}));
+            }
+        }
+        out.write(&json!({"id": case["id"], "parsed": parsed, "problems": problems}));
+    }
+}
